@@ -596,7 +596,16 @@ impl<'a> G<'a> {
                 if self.t.n(4) == 0 {
                     P::Wild
                 } else {
-                    let n = self.fresh("m");
+                    // with shadowing enabled a binder sometimes takes the name of a visible variable
+                    // (it then hides that variable inside its arm / for the rest of the block only)
+                    let mut n = self.fresh("m");
+                    if self.fl.shadowing && self.t.flip(1, if self.fl.bias == 3 { 2 } else { 8 }) {
+                        let names: Vec<String> = self.scopes.iter().flatten().map(|v| v.name.clone()).filter(|x| x != "fuel" && !binds.iter().any(|b| &b.0 == x)).collect();
+                        if !names.is_empty() {
+                            n = names[self.t.n(names.len())].clone();
+                            self.label("binder-shadows");
+                        }
+                    }
                     binds.push((n.clone(), ty.clone()));
                     P::Bind(n)
                 }
